@@ -423,11 +423,31 @@ MALFORMED = ["nosuchopcode a 1", "always", "always ab", "always ab 19z", "always
              "noback nofor always ab 1", "numericmodechars \\x0f00", "capsmodechars \\x0f01", "display ab 1", "display a 1-2", "math \\x0f02"]
 
 
-def gen_addition(rng, t, i, malformed=0.0, kinds=("def", "trans", "pass", "display", "extras"), fat=0.0):
+# rejected by compileRule before anything has been stored (observed; the oracle of C15 re-checks it on every run)
+MALFORMED_CLEAN = ["nosuchopcode a 1", "always", "always ab", "always ab 19z", "always ab 1-", "letter ab 12", "sign",
+                   "after nosuchclass always ab 12", "include nosuchfile.ctb", "grouping g ab 1", "emphletter nosuchclass 1",
+                   "multind 1 nosuch", "noback nofor always ab 1", "numericmodechars \\x0f00",
+                   "capsmodechars \\x0f01", "display ab 1", "display a 1-2", "math \\x0f02", "always \\x0f03 =", "letter \\x0f04",
+                   "letter \\x0f05 1z", "undefined", "numsign 1z", "lencapsphrase 0", "swapcc s2 ab", "comp6 ab 1", "hyphen ab 1",
+                   "exactdots ab", "locale", "uplow Aa 1", "noback pass2", "correct \"a\" \"b\"", "before"]
+# rejected only after a partial effect, or accepted although an error is logged (findings of C15; each is tried in isolation)
+MALFORMED_DIRTY = [("noback pass2 @1", "pass"), ("noback pass3 [@1 @2", "pass"), ("noback pass4 @1 @2z", "pass"),
+                   ("noback correct @1 \"a\"", "pass"), ("noback pass2 {nosuchgroup @1", "pass"), ("noback pass2 %nosuchswap @1", "pass"),
+                   ("noback match %[ ab - 12", "match"), ("noback match - ab ( 12", "match"), ("nofor match - ab ( 12", "match"),
+                   ("base uppercase \\x0994", "base"), ("base uppercase \\x0994 ab", "base"), ("base nosuchattr", "base"),
+                   ("begmodeword nosuchmode", "modeword"),
+                   ("grouping g1 \\x0998\\x0999 1,2", "grouping"), ("swapcd s1 ab 1,2", "swap"),
+                   ("numericmodechars a\\x09ac", "modechars"), ("capsmodechars a\\x09ae", "modechars"), ("numericnocontchars a\\x09af", "modechars"),
+                   ("seqdelimiter a\\x09b3", "modechars"), ("syllable", "syllable"), ("syllable ab", "syllable"), ("syllable \\x09b0 1z", "syllable"),
+                   ("noback context \"a @1", "unterminated-string"), ("noback correct \"a\" \"b", "unterminated-string"),
+                   ("attribute nosuch1 \\x099b", "attribute-name"), ("rependword \\x09a1 1,2z", "rependword")]
+
+
+def gen_addition(rng, t, i, malformed=0.0, kinds=("def", "trans", "pass", "display", "extras"), fat=0.0, strict=False):
     """one rule for lou_compileString on a table built from the Tbl `t` (which is updated for rules that define
     characters): returns (text, kind).  `i` numbers the additions (fresh characters U+0400+i)."""
     if rng.random() < malformed:
-        return rng.choice(MALFORMED), "malformed"
+        return rng.choice(MALFORMED_CLEAN if strict else MALFORMED), "malformed"
     if fat and rng.random() < fat:
         # a long rule (several hundred bytes in the image), to make the image grow
         cs = [c for c in t.chars() if c != 0x20] or [0x61]
@@ -460,17 +480,26 @@ def gen_addition(rng, t, i, malformed=0.0, kinds=("def", "trans", "pass", "displ
     # extras: names and references, match rules, indicators
     r = rng.random()
     lows = [c for c in t.charcell if 0x61 <= c <= 0x7a] or [0x61]
+    names = t.__dict__.setdefault("names", set())
     if r < 0.2:
-        return "grouping g%s %s%s %s,%s" % ("abcdefgh"[i % 8], char_str(0x0700 + 2 * (i % 0x80)), char_str(0x0701 + 2 * (i % 0x80)),
-                                              dots_str(rng.randint(1, 255)), dots_str(rng.randint(1, 255))), "grouping"
+        nm = "g" + "abcdefgh"[i % 8]
+        names.add(nm)
+        return "grouping %s %s%s %s,%s" % (nm, char_str(0x0700 + 2 * (i % 0x80)), char_str(0x0701 + 2 * (i % 0x80)),
+                                            dots_str(rng.randint(1, 255)), dots_str(rng.randint(1, 255))), "grouping"
     if r < 0.35:
         nm = "g" + "abcdefgh"[rng.randrange(8)]
+        if strict and nm not in names:
+            return "letsign 56", "indicator"
         return "noback pass2 {%s}%s @%s" % (nm, nm, dots_str(rng.choice(cells))), "groupref"
     if r < 0.5:
         src = "".join(chr(c) for c in lows[:3])
-        return "swapcd s%s %s %s" % ("abcdefgh"[i % 8], src, ",".join(dots_str(rng.choice(cells)) for _ in src)), "swap"
+        nm = "s" + "abcdefgh"[i % 8]
+        names.add(nm)
+        return "swapcd %s %s %s" % (nm, src, ",".join(dots_str(rng.choice(cells)) for _ in src)), "swap"
     if r < 0.65:
         nm = "s" + "abcdefgh"[rng.randrange(8)]
+        if strict and nm not in names:
+            return "numsign 3456", "indicator"
         return "noback context [%%%s] %%%s" % (nm, nm), "swapref"
     if r < 0.85:
         sx = "".join(chr(rng.choice(lows)) for _ in range(rng.randint(1, 3)))
